@@ -105,11 +105,17 @@ static int roundtrip(const char ** text, size_t * tlen) {
     vh_buf_addc(&msg, '\n');
     if (text) { *text = msg.p + 5; *tlen = n; }
     V->nerrs = 0; V->nerrs_total = 0;
+    { unsigned how = (unsigned) (vh_hash(msg.p, msg.len, 7) % 8u);
+      /* what was emitted is read back as the parameter of "READ": the line ends with LF or - one in four - with a flush call, half of those
+       * after travelling behind an empty line in the same input call (kit vh_deliver) */
+      if (how >= 6) { vh_deliver(V, msg.p, msg.len, 1, how == 6 ? 1 : 2); vh_count("readback.line_ended_by_a_flush_call", 1); }
+      else {
 #if VH_ASAN
     vh_input(V, msg.p, msg.len);
 #else
     SCPI_Input(V->ctx, msg.p, (int) msg.len);
 #endif
+      } }
     vh_eval(1);
     R.errs = V->nerrs;
     if (R.called != 1) {
